@@ -2495,3 +2495,248 @@ Print Assumptions relay_cost.
 Print Assumptions client_never_relays.
 Print Assumptions host_enqueues_downwards_only.
 Print Assumptions traffic_bound.
+
+(* ================================================================================================
+   9. The S18 class lies inside the initial-sync window
+   ================================================================================================ *)
+
+Lemma snoc_split {A} (q q1 q2 : list A) (x y : A) :
+  q ++ [x] = q1 ++ y :: q2 ->
+  (exists q2', q2 = q2' ++ [x] /\ q = q1 ++ y :: q2') \/ (q2 = [] /\ q = q1 /\ x = y).
+Proof.
+  revert q. induction q1 as [|z q1 IH]; intros q Heq; simpl in *.
+  - destruct q as [|a q]; simpl in *.
+    + injection Heq as -> <-. right. done.
+    + injection Heq as -> <-. left. by exists q.
+  - destruct q as [|a q]; simpl in *.
+    + injection Heq as _ Heq. by destruct q1.
+    + injection Heq as -> Heq. destruct (IH _ Heq) as [(q2' & -> & ->)|(-> & -> & ->)].
+      * left. by exists q2'.
+      * right. done.
+Qed.
+
+Record winv (s : astate) : Prop := {
+  w1 : forall c, c ∈ synced s -> pending s c = false;
+  (* an ESpawn u queued behind c's EFinInit (or after it has been handled) is the first c hears of u *)
+  w2 : forall c u q1 q2, c ∈ synced s -> get_link s 0 c = q1 ++ ESpawn u :: q2 -> EFinInit ∉ q2 ->
+       u ∉ get_ents s c /\ ~ mentions u q1;
+}.
+
+Lemma winv_init : winv init.
+Proof. constructor; simpl; intros c; set_solver. Qed.
+
+Lemma pending_false_mono s s' c :
+  (pending s' c = true -> pending s c = true) -> pending s c = false -> pending s' c = false.
+Proof. intros Himp Hf. destruct (pending s' c); [|done]. rewrite Himp in Hf; done. Qed.
+
+Lemma winv_step s e s' : sinv s -> winv s -> step s e = Some s' -> winv s'.
+Proof.
+  intros Hinv [W1 W2] Hstep. pose proof (s_host _ Hinv) as H0. pose proof (s_sub _ Hinv) as Hsub.
+  step_cases Hinv Hstep.
+  - (* spawn *)
+    assert (Hnm : forall a b, ~ mentions u (get_link s a b)).
+    { intros a b Hm. apply Hfresh. eapply s_used_l; eauto. }
+    assert (Hne : forall p', u ∉ get_ents s p').
+    { intros p' Hm. apply Hfresh. eapply s_used_e; eauto. }
+    constructor.
+    + intros c Hcs. rewrite Hs in Hcs. apply (pending_false_mono s); [|by apply W1].
+      destruct (decide (p = 0)) as [->|Hp].
+      * unfold pending. rewrite HL. rewrite decide_True by done. rewrite decide_False; [done|].
+        intros [-> Hin]. done.
+      * destruct (decide (c = p)) as [->|Hcp].
+        -- apply (pending_snoc s s' p (ESpawn u)); [done|]. rewrite HL.
+           rewrite decide_False by done. by rewrite decide_True.
+        -- unfold pending. rewrite HL. rewrite decide_False by done. rewrite decide_False; [done|].
+           intros [= ->]. done.
+    + intros c w q1 q2 Hcs Hsplit Hfin. rewrite Hs in Hcs.
+      pose proof (Hsub _ Hcs) as Hcc. pose proof (conn_ne0 _ _ Hinv Hcc) as Hc0.
+      rewrite HL in Hsplit. destruct (decide (p = 0)) as [->|Hp].
+      * rewrite decide_True in Hsplit by done. rewrite decide_True in Hsplit by done.
+        rewrite HE. rewrite decide_False by done.
+        apply snoc_split in Hsplit as [(q2' & -> & Hold)|(-> & <- & [= <-])].
+        -- apply (W2 c w q1 q2' Hcs Hold). intros Hin. apply Hfin. apply elem_of_app. by left.
+        -- split; [apply Hne|apply Hnm].
+      * rewrite decide_False in Hsplit by done. rewrite decide_False in Hsplit by (intros [= ->]; done).
+        destruct (W2 c w q1 q2 Hcs Hsplit Hfin) as [Hn Hm]. split; [|done].
+        rewrite HE. case_decide as Hd; [|done]. subst c.
+        intros [->|Hin]%elem_of_cons; [|done]. apply (Hnm 0 p). left. rewrite Hsplit.
+        apply elem_of_app. right. apply elem_of_list_here.
+  - (* despawn *)
+    constructor.
+    + intros c Hcs. rewrite Hs in Hcs. apply (pending_false_mono s); [|by apply W1].
+      destruct (decide (p = 0)) as [->|Hp].
+      * unfold pending. rewrite HL. rewrite decide_True by done. rewrite decide_False; [done|].
+        intros [-> Hin']. done.
+      * destruct (decide (c = p)) as [->|Hcp].
+        -- apply (pending_snoc s s' p (EDelete u)); [done|]. rewrite HL.
+           rewrite decide_False by done. by rewrite decide_True.
+        -- unfold pending. rewrite HL. rewrite decide_False by done. rewrite decide_False; [done|].
+           intros [= ->]. done.
+    + intros c w q1 q2 Hcs Hsplit Hfin. rewrite Hs in Hcs.
+      pose proof (Hsub _ Hcs) as Hcc. pose proof (conn_ne0 _ _ Hinv Hcc) as Hc0.
+      rewrite HL in Hsplit. destruct (decide (p = 0)) as [->|Hp].
+      * rewrite decide_True in Hsplit by done. rewrite decide_True in Hsplit by done.
+        rewrite HE. rewrite decide_False by done.
+        apply snoc_split in Hsplit as [(q2' & -> & Hold)|(-> & <- & [=])].
+        apply (W2 c w q1 q2' Hcs Hold). intros Hin'. apply Hfin. apply elem_of_app. by left.
+      * rewrite decide_False in Hsplit by done. rewrite decide_False in Hsplit by (intros [= ->]; done).
+        destruct (W2 c w q1 q2 Hcs Hsplit Hfin) as [Hn Hm]. split; [|done].
+        rewrite HE. case_decide as Hd; [|done]. subst c. intros ?%remove1_subseteq. done.
+  - (* host receives ESpawn u from c *)
+    assert (Hsp : ESpawn u ∈ get_link s c 0) by (rewrite Hhd; apply elem_of_list_here).
+    destruct (s_pa _ Hinv _ _ Hsp) as (Q1 & Q2 & Q3 & Q4).
+    constructor.
+    + intros c' Hcs. rewrite Hs in Hcs. destruct (decide (c' = c)) as [->|Hne].
+      * apply (pending_after_pop s s' c _ _ Hinv Hhd). rewrite HL. rewrite ?decide_True by done. done.
+      * apply (pending_false_mono s); [|by apply W1]. unfold pending. rewrite HL.
+        rewrite decide_False by (intros [= ->]; done). rewrite decide_False; [done|].
+        intros [-> _]. by apply (conn_ne0 _ _ Hinv (Hsub _ Hcs)).
+    + intros c' w q1 q2 Hcs Hsplit Hfin. rewrite Hs in Hcs.
+      pose proof (Hsub _ Hcs) as Hcc. pose proof (conn_ne0 _ _ Hinv Hcc) as Hc0'.
+      rewrite HE. rewrite decide_False by done.
+      rewrite HL in Hsplit. rewrite decide_False in Hsplit by (intros [= ? ?]; simplify_eq).
+      destruct (decide (c' = c)) as [->|Hne].
+      * rewrite decide_False in Hsplit by tauto. by apply (W2 c w q1 q2).
+      * rewrite decide_True in Hsplit by done.
+        apply snoc_split in Hsplit as [(q2' & -> & Hold)|(-> & <- & [= <-])].
+        -- apply (W2 c' w q1 q2' Hcs Hold). intros Hin. apply Hfin. apply elem_of_app. by left.
+        -- split; [by destruct (Q3 c' Hne)|apply Q2].
+  - (* host receives EDelete u from c *)
+    constructor.
+    + intros c' Hcs. rewrite Hs in Hcs. destruct (decide (c' = c)) as [->|Hne].
+      * apply (pending_after_pop s s' c _ _ Hinv Hhd). rewrite HL. rewrite ?decide_True by done. done.
+      * apply (pending_false_mono s); [|by apply W1]. unfold pending. rewrite HL.
+        rewrite decide_False by (intros [= ->]; done). rewrite decide_False; [done|].
+        intros [-> _]. by apply (conn_ne0 _ _ Hinv (Hsub _ Hcs)).
+    + intros c' w q1 q2 Hcs Hsplit Hfin. rewrite Hs in Hcs.
+      pose proof (Hsub _ Hcs) as Hcc. pose proof (conn_ne0 _ _ Hinv Hcc) as Hc0'.
+      rewrite HE. rewrite decide_False by done.
+      rewrite HL in Hsplit. rewrite decide_False in Hsplit by (intros [= ? ?]; simplify_eq).
+      destruct (decide (c' = c)) as [->|Hne].
+      * rewrite decide_False in Hsplit by tauto. by apply (W2 c w q1 q2).
+      * rewrite decide_True in Hsplit by done.
+        apply snoc_split in Hsplit as [(q2' & -> & Hold)|(-> & <- & [=])].
+        apply (W2 c' w q1 q2' Hcs Hold). intros Hin. apply Hfin. apply elem_of_app. by left.
+  - (* host receives EReqInit from c *)
+    constructor.
+    + intros c' Hcs. rewrite Hs in Hcs. destruct (decide (c' = c)) as [->|Hne].
+      * apply (pending_after_pop s s' c _ _ Hinv Hhd). rewrite HL. rewrite ?decide_True by done. done.
+      * apply elem_of_cons in Hcs as [->|Hcs]; [done|].
+        apply (pending_false_mono s); [|by apply W1]. unfold pending. rewrite HL.
+        rewrite decide_False by (intros [= ->]; done). rewrite decide_False; [done|].
+        intros [= -> ?]. done.
+    + intros c' w q1 q2 Hcs Hsplit Hfin. rewrite Hs in Hcs. rewrite HE.
+      rewrite HL in Hsplit. destruct (decide (c' = c)) as [->|Hne].
+      * exfalso. rewrite decide_False in Hsplit by (intros [= ? ?]; simplify_eq).
+        rewrite decide_True in Hsplit by done. rewrite app_assoc in Hsplit.
+        apply snoc_split in Hsplit as [(q2' & -> & _)|(_ & _ & [=])].
+        apply Hfin. apply elem_of_app. right. apply elem_of_list_here.
+      * apply elem_of_cons in Hcs as [->|Hcs]; [done|].
+        rewrite decide_False in Hsplit by (intros [= ? ?]; simplify_eq).
+        rewrite decide_False in Hsplit by (intros [= ->]; done). by apply (W2 c' w q1 q2).
+  - (* host receives EFinInit from c *)
+    constructor.
+    + intros c' Hcs. rewrite Hs in Hcs. destruct (decide (c' = c)) as [->|Hne].
+      * apply (pending_after_pop s s' c _ _ Hinv Hhd). rewrite HL. rewrite ?decide_True by done. done.
+      * apply (pending_false_mono s); [|by apply W1]. unfold pending. rewrite HL.
+        rewrite decide_False; [done|]. intros [= ->]. done.
+    + intros c' w q1 q2 Hcs Hsplit Hfin. rewrite Hs in Hcs. rewrite HE.
+      rewrite HL in Hsplit. rewrite decide_False in Hsplit by (intros [= ? ?]; simplify_eq).
+      by apply (W2 c' w q1 q2).
+  - (* client c handles m *)
+    constructor.
+    + intros c' Hcs. rewrite Hs in Hcs. apply (pending_false_mono s); [|by apply W1].
+      unfold pending. rewrite HL. rewrite decide_False; [done|]. intros [= ? ?]. simplify_eq.
+    + intros c' w q1 q2 Hcs Hsplit Hfin. rewrite Hs in Hcs. rewrite HL in Hsplit. rewrite HE.
+      destruct (decide (c' = c)) as [->|Hne].
+      * rewrite decide_True in Hsplit by done. rewrite ?decide_True by done.
+        assert (Hold : get_link s 0 c = (m :: q1) ++ ESpawn w :: q2).
+        { rewrite Hhd, Hsplit. done. }
+        destruct (W2 c w (m :: q1) q2 Hcs Hold Hfin) as [Hn Hm]. split.
+        -- intros [?| ->]%cl_apply_elem_inv; [done|]. apply Hm. apply mentions_cons. left.
+           by apply mentions_spawn.
+        -- intros Hm'. apply Hm. apply mentions_cons. by right.
+      * rewrite decide_False in Hsplit by (intros [= ->]; done). rewrite ?decide_False by done.
+        by apply (W2 c' w q1 q2).
+  - (* connect *)
+    constructor.
+    + intros c' Hcs. rewrite Hs in Hcs. pose proof (Hsub _ Hcs) as Hcc.
+      assert (Hne : c' <> c) by (intros ->; done).
+      apply (pending_false_mono s); [|by apply W1]. unfold pending. rewrite HL.
+      rewrite decide_False; [done|]. intros [= ->]. done.
+    + intros c' w q1 q2 Hcs Hsplit Hfin. rewrite Hs in Hcs. rewrite HE. rewrite HL in Hsplit.
+      rewrite decide_False in Hsplit by (intros [= ? ?]; simplify_eq). by apply (W2 c' w q1 q2).
+  - (* leave *)
+    pose proof (conn_ne0 _ _ Hinv Hcc) as Hc0.
+    constructor.
+    + intros c' Hcs. rewrite Hs in Hcs. apply elem_of_list_filter in Hcs as [Hne Hcs].
+      apply (pending_false_mono s); [|by apply W1]. unfold pending. rewrite HL.
+      rewrite decide_False; [done|]. intros [[= ? ?]|[= ?]]; simplify_eq.
+    + intros c' w q1 q2 Hcs Hsplit Hfin. rewrite Hs in Hcs. apply elem_of_list_filter in Hcs as [Hne Hcs].
+      rewrite HE. rewrite HL in Hsplit.
+      rewrite decide_False in Hsplit by (intros [[= ?]|[= ? ?]]; simplify_eq).
+      by apply (W2 c' w q1 q2).
+Qed.
+
+Lemma narrow_in_window s p u s' :
+  sinv s -> winv s -> step s (EvDespawn p u) = Some s' ->
+  bad_S18 s (EvDespawn p u) = true -> bad_S18_window s (EvDespawn p u) = true.
+Proof.
+  intros Hinv [W1 W2] Hstep Hbad. simpl in *.
+  apply andb_true_iff in Hbad as [Hp0 Hbad]. rewrite Hp0. simpl.
+  apply bool_decide_eq_true in Hp0.
+  destruct (peer_on s p) eqn:Hon; [|done].
+  destruct (bool_decide (u ∈ get_ents s p)) eqn:Hin; [|done].
+  apply bool_decide_eq_true in Hin.
+  apply peer_on_spec in Hon as [->|Hpc]; [done|].
+  unfold in_sync_window. rewrite (bool_decide_eq_true_2 _ Hpc). simpl.
+  destruct (decide (p ∈ synced s)) as [Hps|Hps]; [|by rewrite (bool_decide_eq_false_2 _ Hps)].
+  destruct (decide (EFinInit ∈ get_link s 0 p)) as [Hfin|Hfin];
+    [rewrite (bool_decide_eq_true_2 _ Hfin); apply orb_true_r|].
+  exfalso. apply orb_true_iff in Hbad as [Hdup|Hpend].
+  - apply after_msgs_true_inv in Hdup as [?|Hsp]; [done|].
+    apply elem_of_list_split in Hsp as (q1 & q2 & Hsplit).
+    destruct (W2 p u q1 q2 Hps Hsplit) as [Hn _]; [|done].
+    intros Hin2. apply Hfin. rewrite Hsplit. apply elem_of_app. right. by apply elem_of_list_further.
+  - apply andb_true_iff in Hpend as [Hpend _]. by rewrite (W1 p Hps) in Hpend.
+Qed.
+
+Lemma scan_S18_in_window s tr s' :
+  sinv s -> winv s -> run s tr = Some s' ->
+  scan bad_S18 s tr = true -> scan bad_S18_window s tr = true.
+Proof.
+  revert s. induction tr as [|e tr IH]; intros s Hinv Hw Hrun; simpl in *; [done|].
+  destruct (step s e) as [s1|] eqn:Hstep; [|done].
+  intros [Hb|Hrest]%orb_true_iff; apply orb_true_iff.
+  - left. destruct e as [p u|p u|a b|c|c]; try done. by eapply narrow_in_window.
+  - right. apply (IH s1); try done; [by eapply sinv_step|by eapply winv_step].
+Qed.
+
+(* every S18 trace is a trace in which some client despawns something between its EvConnect and the
+   delivery of its EFinInit *)
+Theorem known_S18_inside_window tr s :
+  run init tr = Some s -> known_S18 tr = true -> known_S18_window tr = true.
+Proof. intros Hrun. eapply scan_S18_in_window; [apply sinv_init|apply winv_init|done]. Qed.
+
+(* C01 with the purely temporal description of the S18 class *)
+Corollary C01_entities_converge_window tr s :
+  run init tr = Some s -> known_S11 tr = false -> known_S18_window tr = false -> quiescent s ->
+  agree s /\
+  (forall u, u ∉ dropped_uuids tr -> (u ∈ get_ents s 0 <-> u ∈ spec_alive tr)).
+Proof.
+  intros Hrun H11 Hw Hq.
+  assert (H18 : known_S18 tr = false).
+  { destruct (known_S18 tr) eqn:Hk; [|done]. by rewrite (known_S18_inside_window _ _ Hrun Hk) in Hw. }
+  destruct (C01_entities_converge _ _ Hrun H11 H18 Hq) as (? & ? & _). done.
+Qed.
+
+(* the window class is strictly wider: a despawn inside the window that is harmless *)
+Example window_is_wider :
+  let tr := [EvConnect 1; EvSpawn 1 10; EvDespawn 1 10; EvDeliver 1 0; EvDeliver 1 0; EvDeliver 1 0;
+             EvDeliver 0 1] in
+  (known_S18_window tr, known_S18 tr, (fun s => (quiescentb s, agreeb s)) <$> run init tr)
+  = (true, false, Some (true, true)).
+Proof. vm_compute. reflexivity. Qed.
+
+Print Assumptions known_S18_inside_window.
+Print Assumptions C01_entities_converge_window.
